@@ -122,10 +122,11 @@ func c36IsDescendant(nodes []bfe_http2.VerifNode, of, anc uint32) bool {
 
 // heartbeat slots for the non-termination watchdog
 type c36Beat struct {
-	mu     sync.Mutex
-	inCall bool
-	since  time.Time
-	w      c36Witness
+	mu      sync.Mutex
+	inCall  bool
+	calls   uint64
+	streams []uint32
+	ops     []c36Op // prefix including the op being executed (owned by the worker; copied by the watchdog under mu)
 }
 
 type c36Dog struct {
@@ -141,6 +142,11 @@ func newC36Dog(r *vkit.Run, n int) *c36Dog {
 	for i := 0; i < n; i++ {
 		d.beats = append(d.beats, &c36Beat{})
 	}
+	lastCalls := make([]uint64, n)
+	lastSeen := make([]time.Time, n)
+	for i := range lastSeen {
+		lastSeen[i] = time.Now()
+	}
 	go func() {
 		t := time.NewTicker(500 * time.Millisecond)
 		defer t.Stop()
@@ -150,10 +156,16 @@ func newC36Dog(r *vkit.Run, n int) *c36Dog {
 				return
 			case <-t.C:
 			}
-			for _, b := range d.beats {
+			for bi, b := range d.beats {
 				b.mu.Lock()
-				hung := b.inCall && time.Since(b.since) > c36CallBound
-				w := b.w
+				if !b.inCall || b.calls != lastCalls[bi] {
+					lastCalls[bi], lastSeen[bi] = b.calls, time.Now()
+				}
+				hung := b.inCall && time.Since(lastSeen[bi]) > c36CallBound
+				var w c36Witness
+				if hung { // the worker is stuck inside the call, so its op slice is stable
+					w = c36Witness{Driver: "private-map", Streams: b.streams, Ops: append([]c36Op(nil), b.ops...)}
+				}
 				b.mu.Unlock()
 				if hung {
 					r.Violation("nontermination:adjustStreamPriority",
@@ -184,8 +196,9 @@ func c36Run(r *vkit.Run, beat *c36Beat, streams []uint32, ops []c36Op) (nodes []
 			}
 			if beat != nil {
 				beat.mu.Lock()
-				beat.inCall, beat.since = true, time.Now()
-				beat.w = c36Witness{Driver: "private-map", Streams: streams, Ops: ops[:i+1]}
+				beat.inCall = true
+				beat.calls++
+				beat.streams, beat.ops = streams, ops[:i+1]
 				beat.mu.Unlock()
 			}
 			t.Adjust(op.ID, op.Dep, op.Excl, op.W)
@@ -312,35 +325,107 @@ func c36(r *vkit.Run) {
 	defer close(dog.stop)
 
 	// ---- exhaustive part ----
+	// DFS over op sequences with snapshot/restore of the private map (so each
+	// sequence costs one real adjustStreamPriority call, not its whole prefix).
 	var desc, deep int64
 	exhaust := func(streams []uint32, maxLen int, withClose bool) {
 		al := c36Alphabet(streams, withClose)
 		n := len(al)
-		// parallelise over the first two letters
-		first := n * n
-		if maxLen < 2 {
-			first = n
+		ns := len(streams)
+		idxOf := map[uint32]int{}
+		for i, id := range streams {
+			idxOf[id] = i
 		}
-		vkit.Parallel(first, workers, func(i int) {
+		vkit.Parallel(n, workers, func(i int) {
 			beat := dog.beats[i%workers]
-			var total int64
+			t := bfe_http2.VerifNewPriorityTree(streams)
+			var total, nDesc, nDeep int64
+			seen := map[uint64]struct{}{} // worker-local: only first sightings go to the shared distinct set
 			ops := make([]c36Op, 0, maxLen)
+			saveP := make([][]int, maxLen+1)
+			saveM := make([][]bool, maxLen+1)
+			for d := range saveP {
+				saveP[d] = make([]int, 0, ns)
+				saveM[d] = make([]bool, 0, ns)
+			}
+			curP := make([]int, 0, ns)
+			curM := make([]bool, 0, ns)
 			var rec func(depth int)
-			eval := func() bool {
-				r.WriteAhead(nil)
-				nodes, dc, ok := c36Run(r, beat, streams, ops)
+			// apply runs op on the live tree and checks it; false = violation (already reported)
+			apply := func(depth int, op c36Op) bool {
+				saveP[depth], saveM[depth] = t.Parents(saveP[depth], saveM[depth])
+				dc := false
+				switch op.Kind {
+				case "close":
+					t.Close(op.ID)
+				default:
+					if op.Dep != 0 && op.Dep != op.ID {
+						a, b := idxOf[op.ID], idxOf[op.Dep]
+						if saveM[depth][a] && saveM[depth][b] {
+							for cur, s := b, 0; saveP[depth][cur] >= 0 && s <= ns; s++ {
+								cur = saveP[depth][cur]
+								if cur == a {
+									dc = true
+									break
+								}
+							}
+						}
+					}
+					beat.mu.Lock()
+					beat.inCall = true
+					beat.calls++
+					beat.streams, beat.ops = streams, ops
+					beat.mu.Unlock()
+					t.Adjust(op.ID, op.Dep, op.Excl, op.W)
+					beat.mu.Lock()
+					beat.inCall = false
+					beat.mu.Unlock()
+				}
+				curP, curM = t.Parents(curP, curM)
+				// acyclicity walk with step bound
+				maxDepth := 0
+				for i := range curP {
+					cur, steps := i, 0
+					for curP[cur] >= 0 {
+						cur = curP[cur]
+						steps++
+						if cur == i || steps > ns {
+							// report through the slow path (fresh tree, full witness)
+							c36Run(r, nil, streams, append([]c36Op(nil), ops...))
+							return false
+						}
+					}
+					if steps > maxDepth {
+						maxDepth = steps
+					}
+				}
 				total++
-				if !ok {
-					return false
-				}
-				nt := dc || c36Depth(nodes) >= 2
 				if dc {
-					atomic.AddInt64(&desc, 1)
+					nDesc++
 				}
-				if nt {
-					atomic.AddInt64(&deep, 1)
-					r.Case(c36Key(nodes, dc, ops[len(ops)-1]), true)
-					total-- // Case counts the evaluation itself
+				if dc || maxDepth >= 2 {
+					nDeep++
+					var k uint64 = 1469598103934665603
+					for i := range curP {
+						k = (k ^ uint64(curP[i]+2)) * 1099511628211
+						if curM[i] {
+							k = (k ^ 7) * 1099511628211
+						}
+					}
+					if dc {
+						k = (k ^ 99) * 1099511628211
+					}
+					if op.Excl {
+						k = (k ^ 55) * 1099511628211
+					}
+					if op.Kind == "close" {
+						k = (k ^ 33) * 1099511628211
+					}
+					if _, dup := seen[k]; !dup {
+						seen[k] = struct{}{}
+						r.Case(k, true)
+						total--
+					}
 				}
 				return true
 			}
@@ -350,31 +435,26 @@ func c36(r *vkit.Run) {
 				}
 				for _, op := range al {
 					ops = append(ops, op)
-					if eval() {
+					if apply(depth, op) {
 						rec(depth + 1)
 					}
+					t.Restore(saveP[depth], saveM[depth])
 					ops = ops[:len(ops)-1]
 				}
 			}
-			if maxLen < 2 {
-				ops = append(ops, al[i])
-				eval()
-			} else {
-				a, b := al[i/n], al[i%n]
-				if i%n == 0 { // length-1 prefix once per first letter
-					ops = append(ops[:0], a)
-					eval()
-				}
-				ops = append(ops[:0], a, b)
-				if eval() {
-					rec(2)
-				}
+			ops = append(ops, al[i])
+			if apply(0, al[i]) {
+				rec(1)
 			}
 			r.Evals(total)
+			atomic.AddInt64(&desc, nDesc)
+			atomic.AddInt64(&deep, nDeep)
 		})
 	}
 	s5 := []uint32{1, 3, 5, 7, 9}
+	t0 := time.Now()
 	exhaust(s5, 4, true)
+	r.Count("phase_exhaustive_ms", time.Since(t0).Milliseconds())
 	if !r.Quick() {
 		exhaust([]uint32{1, 3, 5}, 5, true)
 		exhaust([]uint32{1, 3}, 6, true)
